@@ -35,10 +35,14 @@ Reading guide
 * What "well-formed" means: `C09_grammar_unambiguous`, `C09_grammar_shape`, `C09_grammar_left_assoc`,
   `C09_grammar_tail_lam`.
 * Invariance: `C09_dbr_whitespace_invariant`, `C09_dbr_glyph_invariant`, `C09_redundant_parens_*`,
-  `C09_cla_whitespace_glyph_invariant`, `C09_cla_denotes` (any redundant parentheses).
+  `C09_cla_whitespace_glyph_invariant`, `C09_cla_whitespace_before_backslash`, `C09_cla_denotes`
+  (any redundant parentheses).
 * Classic notation: `C09_cla_render`, `C09_cla_tokens`, `C09_cla_ok_iff`, `C09_cla_err_iff`,
   `C09_cla_wellformed_iff`, `C09_cla_wellformed_iff_printing`, `C09_cla_complete`,
-  `C09_toDeBruijn_spec`, `C09_cla_denotes`, `C09_cla_invalid_char(_binder)`.
+  `C09_toDeBruijn_spec`, `C09_cla_denotes`, `C09_cla_invalid_char(_binder)(_backslash)`.
+  A variable name ends at whitespace, a parenthesis, the end of the input or a BACKSLASH (the ASCII
+  lambda glyph, never part of an identifier): `x\y.y` is `x (\y.y)`
+  (`C09_cla_backslash_ends_name`).
 * Both: `C09_notations_agree*`, `C09_no_truncation*`, `C09_cla_unmatched_rparen`, `C09_no_panic`.
 -/
 import LC.Proofs.Syntax.DeBruijn
@@ -666,6 +670,31 @@ theorem C09_cla_whitespace_glyph_invariant (cls : CharCls) (hcls : Cl.ClsOk cls)
     parse cls s₁ .Classic = parse cls s₂ .Classic :=
   parse_cla_render_indep cls hcls cts s₁ s₂ h₁ h₂
 
+/-- whitespace between a variable name and a following BACKSLASH binder is optional: the backslash
+(which can never be part of an identifier) ends the name.  After any prefix `pre` that renders
+complete tokens and ends at top level, for any well-formed name `n`, any (possibly empty) run of
+whitespace `ws` and any rendering `\ …` that starts with a backslash (necessarily a binder), the
+strings `pre n ws \ …` and `pre n \ …` are renderings of the same named tokens … -/
+theorem C09_cla_renders_name_backslash (cls : CharCls) (ts₀ cts : List CToken)
+    (pre n ws s : List Nat)
+    (hpre : Cl.Renders cls ts₀ pre) (hend : Cl.EndsTop cls pre) (hn : Cl.WfName cls n)
+    (hws : ∀ w ∈ ws, cls.isWs w = true) (hs : Cl.Renders cls cts (cBackslash :: s)) :
+    Cl.Renders cls (ts₀ ++ CToken.CName n :: cts) (pre ++ (n ++ (ws ++ cBackslash :: s))) ∧
+    Cl.Renders cls (ts₀ ++ CToken.CName n :: cts) (pre ++ (n ++ cBackslash :: s)) :=
+  ⟨renders_name_backslash cls ts₀ cts pre n ws s hpre hend hn hws hs,
+   renders_name_backslash cls ts₀ cts pre n [] s hpre hend hn (by simp) hs⟩
+
+/-- … hence have the same outcome (term or error): inserting or omitting whitespace between a
+variable name and a following backslash binder never changes the result -/
+theorem C09_cla_whitespace_before_backslash (cls : CharCls) (hcls : Cl.ClsOk cls)
+    (ts₀ cts : List CToken) (pre n ws s : List Nat)
+    (hpre : Cl.Renders cls ts₀ pre) (hend : Cl.EndsTop cls pre) (hn : Cl.WfName cls n)
+    (hws : ∀ w ∈ ws, cls.isWs w = true) (hs : Cl.Renders cls cts (cBackslash :: s)) :
+    parse cls (pre ++ (n ++ (ws ++ cBackslash :: s))) .Classic
+      = parse cls (pre ++ (n ++ cBackslash :: s)) .Classic :=
+  have h := C09_cla_renders_name_backslash cls ts₀ cts pre n ws s hpre hend hn hws hs
+  C09_cla_whitespace_glyph_invariant cls hcls _ _ _ h.1 h.2
+
 /-! ### lexical errors -/
 
 /-- after a prefix that renders complete tokens and ends at top level (with whitespace, a
@@ -695,6 +724,20 @@ theorem C09_cla_invalid_char_binder (cls : CharCls) (hcls : Cl.ClsOk cls)
       = .err (.InvalidCharacter (pre.length + 1 + nm.length) c) :=
   C09_cla_lex_error cls _ _
     (tokenizeCla_invalid_binder cls hcls ts₀ pre g nm c post hpre hend hg hnm hdot hbad)
+
+/-- the same for a binder opened by a backslash directly after a variable name (the backslash ends
+the name): here the prefix may be ANY rendering of complete tokens -/
+theorem C09_cla_invalid_char_binder_backslash (cls : CharCls) (hcls : Cl.ClsOk cls)
+    (ts₀ : List CToken) (pre : List Nat) (nm : List Nat) (c : Nat) (post : List Nat)
+    (hpre : Cl.Renders cls ts₀ pre)
+    (hnm : ∀ a as, nm = a :: as →
+      cls.isAlpha a = true ∧ a ≠ cDot ∧ ∀ d ∈ as, cls.isAlnum d = true ∧ d ≠ cDot)
+    (hdot : c ≠ cDot)
+    (hbad : if nm = [] then cls.isAlpha c = false else cls.isAlnum c = false) :
+    parse cls (pre ++ cBackslash :: (nm ++ c :: post)) .Classic
+      = .err (.InvalidCharacter (pre.length + 1 + nm.length) c) :=
+  C09_cla_lex_error cls _ _
+    (tokenizeCla_invalid_binder_backslash cls hcls ts₀ pre nm c post hpre hnm hdot hbad)
 
 /-! ## 3. the two notations agree -/
 
@@ -891,7 +934,7 @@ Code points: `λ` 955, `\` 92, `(` 40, `)` 41, `.` 46, space 32, `#` 35, `0`..`9
 `LC/Proofs/Syntax/Classic.lean`. -/
 
 namespace C09.Examples
-open C09C.Examples (asciiCls asciiCls_ok wf_single wf_x wf_y wf_z renders₁ renders₂)
+open C09C.Examples (asciiCls asciiCls_ok wf_single wf_x wf_y wf_z renders₁ renders₂ renders₆)
 open Parser.CToken Parser.Token Cl.NTerm
 
 /-- ground evaluation of the token-level stage (`foldList` is compiled by well-founded recursion,
@@ -1034,6 +1077,44 @@ example : parse asciiCls [32, 32, 92, 120, 46, 32, 92, 121, 46, 120, 32, 32, 121
     = parse asciiCls [955, 120, 46, 955, 121, 46, 120, 32, 121, 32, 122] .Classic :=
   C09_cla_whitespace_glyph_invariant asciiCls asciiCls_ok _ _ _ renders₂ renders₁
 
+/-- `x\y.y`: a backslash ends a variable name and opens a binder — the string lexes as `x`, `\y.`,
+`y` and denotes `x (λy.y)` (by evaluation of the model, stage by stage) -/
+theorem ex_backslash_ends_name :
+    parse asciiCls [120, 92, 121, 46, 121] .Classic = .ok (app (var 1) (abs (var 1))) := by
+  rw [parse_cla_spec, show tokenizeCla asciiCls [120, 92, 121, 46, 121]
+    = .ok [CName [120], CLambda [121], CName [121]] from rfl]
+  simp only [show convertClassicTokens [CName [120], CLambda [121], CName [121]]
+    = some [Number 1, Lambda, Number 1] from by decide]
+  c09_eval
+
+/-- the same from the general theorem `C09_cla_denotes`: `x\y.y` is a rendering (`renders₆`) of an
+admissible printing of the named term `x (λy.y)` -/
+example : parse asciiCls [120, 92, 121, 46, 121] .Classic
+    = .ok (Cl.toDeBruijn (napp (nvar [120]) (nlam [121] (nvar [121])))) :=
+  C09_cla_denotes asciiCls asciiCls_ok _ false true _ _
+    (.app (c₁ := [_]) (c₂ := [_, _]) .var (.lam .var)) renders₆
+
+/-- `x  \y.y` (whitespace inserted) has the same outcome (`C09_cla_whitespace_before_backslash`) -/
+example : parse asciiCls ([] ++ ([120] ++ ([32, 32] ++ 92 :: [121, 46, 121]))) .Classic
+    = parse asciiCls ([] ++ ([120] ++ 92 :: [121, 46, 121])) .Classic :=
+  C09_cla_whitespace_before_backslash asciiCls asciiCls_ok [] [CLambda [121], CName [121]]
+    [] [120] [32, 32] [121, 46, 121] .nil (by intro c h; simp at h) wf_x (by decide)
+    (.lam (g := 92) (n := [121]) (by decide) wf_y (.name (n := [121]) wf_y trivial .nil))
+
+/-- the other glyph `λ` is a letter: `xλy.y` is ONE name (here a free variable) -/
+example : parse asciiCls [120, 955, 121, 46, 121] .Classic = .ok (var 1) := by
+  rw [parse_cla_spec, show tokenizeCla asciiCls [120, 955, 121, 46, 121]
+    = .ok [CName [120, 955, 121, 46, 121]] from rfl]
+  simp only [show convertClassicTokens [CName [120, 955, 121, 46, 121]]
+    = some [Number 1] from by decide]
+  c09_eval
+
+/-- `x\1`: the binder opened by the backslash is validated; `1` is character number 2 -/
+example : parse asciiCls ([120] ++ 92 :: ([] ++ 49 :: [])) .Classic
+    = .err (.InvalidCharacter 2 49) :=
+  C09_cla_invalid_char_binder_backslash asciiCls asciiCls_ok [CName [120]] [120] [] 49 []
+    (.name (n := [120]) wf_x trivial .nil) (by intro a as h; cases h) (by decide) (by decide)
+
 /-- `a λb.b a` is a rendering of its tokens … -/
 theorem renders₃ : Cl.Renders asciiCls [CName [97], CLambda [98], CName [98], CName [97]]
     [97, 32, 955, 98, 46, 98, 32, 97] :=
@@ -1065,10 +1146,10 @@ theorem renders₄ : Cl.Renders asciiCls
     [CLparen, CName [97], CRparen, CLparen, CLambda [98], CLparen, CLparen, CName [98], CRparen,
       CName [97], CRparen, CRparen]
     [40, 97, 41, 32, 40, 92, 98, 46, 40, 40, 98, 41, 32, 97, 41, 41] :=
-  .lparen <| .name (n := [97]) wf_a (Or.inr (Or.inr rfl)) <| .rparen <| .ws (by decide) <|
+  .lparen <| .name (n := [97]) wf_a (Or.inr (Or.inr (Or.inl rfl))) <| .rparen <| .ws (by decide) <|
   .lparen <| .lam (g := 92) (n := [98]) (by decide) wf_b <| .lparen <| .lparen <|
-  .name (n := [98]) wf_b (Or.inr (Or.inr rfl)) <| .rparen <| .ws (by decide) <|
-  .name (n := [97]) wf_a (Or.inr (Or.inr rfl)) <| .rparen <| .rparen .nil
+  .name (n := [98]) wf_b (Or.inr (Or.inr (Or.inl rfl))) <| .rparen <| .ws (by decide) <|
+  .name (n := [97]) wf_a (Or.inr (Or.inr (Or.inl rfl))) <| .rparen <| .rparen .nil
 
 theorem prints₄ : Cl.PrintsN t₂ false true
     [CLparen, CName [97], CRparen, CLparen, CLambda [98], CLparen, CLparen, CName [98], CRparen,
@@ -1135,7 +1216,7 @@ example : ∃ t, parse asciiCls [97, 32, 955, 98, 46, 98, 32, 97] .Classic = .ok
 theorem renders₅ : Cl.Renders asciiCls [CLambda [97], CName [97], CRparen, CName [98]]
     [955, 97, 46, 97, 41, 32, 98] :=
   .lam (g := 955) (n := [97]) (by decide) wf_a <|
-  .name (n := [97]) wf_a (Or.inr (Or.inr rfl)) <| .rparen <| .ws (by decide) <|
+  .name (n := [97]) wf_a (Or.inr (Or.inr (Or.inl rfl))) <| .rparen <| .ws (by decide) <|
   .name (n := [98]) wf_b trivial .nil
 
 example : ¬ ∃ nt, Cl.PrintsN nt false true [CLambda [97], CName [97], CRparen, CName [98]] := by
@@ -1193,5 +1274,11 @@ example : parse asciiCls [41] .Classic = .err .InvalidExpression := by
 example : parse asciiCls [41] .Classic ≠ .panic := C09_no_panic _ _ _
 
 end C09.Examples
+
+/-- the string `x\y.y`: the backslash ends the variable name `x` (repair F9 of the crate); before the repair the whole
+input was one identifier and `parse` returned `Ok(Var(1))` -/
+theorem C09_cla_backslash_ends_name :
+    parse C09C.Examples.asciiCls [120, 92, 121, 46, 121] .Classic = .ok (app (var 1) (abs (var 1))) :=
+  C09.Examples.ex_backslash_ends_name
 
 end LC
